@@ -33,6 +33,7 @@ pub struct Weights {
     pub scan: u32,
     pub iter_open: u32,
     pub iter_step: u32,
+    pub fill: u32,
 }
 
 impl Weights {
@@ -58,6 +59,7 @@ impl Weights {
             scan: 0,
             iter_open: 0,
             iter_step: 0,
+            fill: 2,
         }
     }
 }
@@ -75,6 +77,27 @@ pub struct GenProfile {
     pub verdicts: bool,
     pub tiny: bool,
     pub big_values: bool,
+    /// percentage of cases that use a big key pool
+    pub big_pool_pct: u32,
+}
+
+/// 300-1400 short keys (prefix + big-endian counter): reaches blocks with more than 254 entries,
+/// several index / filter partitions and tables with many blocks at tree level
+pub fn big_pool() -> impl Strategy<Value = Vec<Vec<u8>>> {
+    (
+        prop_oneof![Just(vec![]), Just(vec![b'k']), vec(any::<u8>(), 1..4)],
+        300usize..1400,
+        prop_oneof![Just(1usize), Just(3usize), Just(7usize)],
+    )
+        .prop_map(|(p, n, step)| {
+            (0..n)
+                .map(|i| {
+                    let mut k = p.clone();
+                    k.extend_from_slice(&((i * step) as u16).to_be_bytes());
+                    k
+                })
+                .collect()
+        })
 }
 
 pub fn key_pool(min: usize, max: usize) -> impl Strategy<Value = Vec<Vec<u8>>> {
@@ -141,7 +164,7 @@ fn policy<T: Clone + std::fmt::Debug + 'static>(
 
 pub fn blob_spec() -> impl Strategy<Value = BlobSpec> {
     (
-        prop_oneof![Just(1u32), Just(8), Just(64), Just(1024)],
+        prop_oneof![1 => Just(0u32), 3 => Just(1u32), 3 => Just(8u32), 3 => Just(64u32), 3 => Just(1024u32)],
         prop_oneof![Just(1u64), Just(256), Just(4096), Just(64 << 20)],
         prop_oneof![Just(0.000_001f32), Just(0.1), Just(0.5), Just(0.9)],
         prop_oneof![Just(0.25f32), Just(0.5), Just(1.0)],
@@ -306,6 +329,12 @@ pub fn op(p: &GenProfile) -> BoxedStrategy<Op> {
                 .prop_map(|items| Op::Batch { items })
                 .boxed(),
         ),
+        (
+            w.fill,
+            (any::<u16>(), prop_oneof![3 => 2u16..40, 2 => 40u16..400, 1 => 400u16..1500], prop_oneof![3 => Just(16u8), 2 => Just(0u8), 1 => 0u8..240], proptest::bool::weighted(0.15), any::<bool>())
+                .prop_map(|(start, n, len, del, one_seqno)| Op::Fill { start, n, len, del, one_seqno })
+                .boxed(),
+        ),
         (w.rotate, Just(Op::Rotate).boxed()),
         (w.flush, wm().prop_map(|wm| Op::Flush { wm }).boxed()),
         (w.flush_active, wm().prop_map(|wm| Op::FlushActive { wm }).boxed()),
@@ -401,8 +430,17 @@ pub fn case(p: &GenProfile) -> BoxedStrategy<Case> {
     let multi_gen = p.multi_gen;
     let weak_max = p.weak_keys_max;
     // all cfgs of a case share the tree type: generate the first, then force the others to match
+    let pool = if p.big_pool_pct > 0 {
+        prop_oneof![
+            (100 - p.big_pool_pct) => key_pool(p.min_keys, p.max_keys),
+            p.big_pool_pct => big_pool(),
+        ]
+        .boxed()
+    } else {
+        key_pool(p.min_keys, p.max_keys).boxed()
+    };
     (
-        key_pool(p.min_keys, p.max_keys),
+        pool,
         vec(cfg_spec(blob, tiny), n_cfgs..=n_cfgs),
         vec(op(p), 1..=p.max_ops),
         verdicts,
